@@ -6,11 +6,12 @@
  * driven: FIRST, LAST and the increment are handed over as values, in the
  * representation main() has at that point).
  *
- * assume-guarantee: inside dseq.c the library's dt_dtadd() is replaced by its
- * contract vf_dtadd() (so that a dozen iterations stay solvable); the
- * obligation h_contract proves the real dt_dtadd() equal to that contract on
- * the domain the sequences use, and the stub checks that it is never called
- * outside that domain */
+ * assume-guarantee: inside dseq.c the library's dt_dtadd(), dt_dtcmp() and
+ * dt_dt_in_range_p() are replaced by their contracts vf_dtadd(), vf_dtcmp()
+ * and vf_in_range() (so that a dozen iterations stay solvable); the
+ * obligations h_contract and h_contract_cmp prove the real functions equal to
+ * the contracts on the domain the sequences use, and the stubs record whether
+ * they were ever called outside that domain */
 #include "vf.h"
 #include "ref.h"
 #include "dt-core.h"
@@ -68,41 +69,83 @@ vf_dtadd(struct dt_dt_s d, struct dt_dtdur_s dur)
 			d.d.ymd.m = t % 12 + 1;
 		}
 	} else if (dt_sandwich_only_t_p(d)) {
-		int step = 0;
-
 		vf_contract_domain &= d.t.typ == DT_HMS && d.t.hms.h < 24 && d.t.hms.m < 60 && d.t.hms.s < 60 &&
 			d.t.hms.ns == 0 && n >= -C_NMAX && n <= C_NMAX;
 		switch (dur.durtyp) {
 		case DT_DURH:
-			step = n * 3600;
-			break;
 		case DT_DURM:
-			step = n * 60;
-			break;
 		case DT_DURS:
-			step = n;
 			break;
 		default:
 			return d;
 		}
 		{
-			int s = vf_secs(d.t) + step % 86400;
+			/* |step| < 24 h here (|n| <= 59 minutes/seconds, hours taken modulo 24);
+			 * carry by cascade, a solver chokes on the division form */
+			int h = (int)d.t.hms.h, m = (int)d.t.hms.m, sec = (int)d.t.hms.s;
 			int c = 0;
 
-			if (s < 0) {
-				s += 86400, c = -1;
-			} else if (s >= 86400) {
-				s -= 86400, c = 1;
+			if (dur.durtyp == DT_DURH) {
+				h += n % 24;
+			} else if (dur.durtyp == DT_DURM) {
+				h += n / 60, m += n % 60;
+			} else {
+				m += n / 60, sec += n % 60;
 			}
-			d.t.hms.h = s / 3600;
-			d.t.hms.m = s / 60 % 60;
-			d.t.hms.s = s % 60;
+			if (sec < 0) {
+				sec += 60, m--;
+			} else if (sec >= 60) {
+				sec -= 60, m++;
+			}
+			if (m < 0) {
+				m += 60, h--;
+			} else if (m >= 60) {
+				m -= 60, h++;
+			}
+			if (h < 0) {
+				h += 24, c = -1;
+			} else if (h >= 24) {
+				h -= 24, c = 1;
+			}
+			d.t.hms.h = h;
+			d.t.hms.m = m;
+			d.t.hms.s = sec;
 			d.t.carry = c;
 		}
 	} else {
 		vf_contract_domain = 0;
 	}
 	return d;
+}
+
+/* the order of two values of one kind: day numbers by number, ymd dates by
+ * (year, month, day) -- also for days beyond the month's end, which the
+ * sequence holds until dt_fixup() crops them */
+static int
+vf_dtcmp(struct dt_dt_s a, struct dt_dt_s b)
+{
+	if (dt_sandwich_only_d_p(a) && dt_sandwich_only_d_p(b) && a.d.typ == DT_DAISY && b.d.typ == DT_DAISY) {
+		vf_contract_domain &= (int)a.d.daisy >= C_DLO && (int)a.d.daisy <= C_DHI &&
+			(int)b.d.daisy >= C_DLO && (int)b.d.daisy <= C_DHI;
+		return a.d.daisy < b.d.daisy ? -1 : a.d.daisy > b.d.daisy;
+	} else if (dt_sandwich_only_d_p(a) && dt_sandwich_only_d_p(b) && a.d.typ == DT_YMD && b.d.typ == DT_YMD) {
+		int ka = ((int)a.d.ymd.y * 12 + (int)a.d.ymd.m) * 32 + (int)a.d.ymd.d;
+		int kb = ((int)b.d.ymd.y * 12 + (int)b.d.ymd.m) * 32 + (int)b.d.ymd.d;
+		vf_contract_domain &= a.d.ymd.m >= 1 && a.d.ymd.m <= 12 && a.d.ymd.d >= 1 && a.d.ymd.d <= 31 &&
+			b.d.ymd.m >= 1 && b.d.ymd.m <= 12 && b.d.ymd.d >= 1 && b.d.ymd.d <= 31 &&
+			(int)a.d.ymd.y > REF_MIN_YEAR && (int)a.d.ymd.y < REF_MAX_YEAR &&
+			(int)b.d.ymd.y > REF_MIN_YEAR && (int)b.d.ymd.y < REF_MAX_YEAR;
+		return ka < kb ? -1 : ka > kb;
+	}
+	vf_contract_domain = 0;
+	return -2;
+}
+
+/* 1 iff D1 <= D <= D2 (dseq tests for 1 only) */
+static int
+vf_in_range(struct dt_dt_s d, struct dt_dt_s d1, struct dt_dt_s d2)
+{
+	return vf_dtcmp(d, d1) >= 0 && vf_dtcmp(d, d2) <= 0;
 }
 
 #if defined PART_CONTRACT
@@ -175,15 +218,71 @@ h_contract(void)
 	WITNESS();
 }
 
+/* the guarantee for the order: real dt_dtcmp() and dt_dt_in_range_p() */
+void
+h_contract_cmp(void)
+{
+	struct dt_dt_s v[3];
+	int c01, c02, ir;
+
+	memset(v, 0, sizeof(v));
+# if SHAPE == SHAPE_DAISY
+	{
+		ND_ARR(i32, vday, 3);
+		for (int i = 0; i < 3; i++) {
+			ASSUME(vday[i] >= C_DLO && vday[i] <= C_DHI);
+			v[i].d.daisy = vday[i];
+			dt_make_d_only(v + i, DT_DAISY);
+		}
+	}
+# else
+	{
+		ND_ARR(i32, vy, 3);
+		ND_ARR(i32, vm, 3);
+		ND_ARR(i32, vd, 3);
+		for (int i = 0; i < 3; i++) {
+			ASSUME(vy[i] > REF_MIN_YEAR && vy[i] < REF_MAX_YEAR);
+			ASSUME(vm[i] >= 1 && vm[i] <= 12 && vd[i] >= 1 && vd[i] <= 31);
+			v[i].d.ymd.y = vy[i], v[i].d.ymd.m = vm[i], v[i].d.ymd.d = vd[i];
+			dt_make_d_only(v + i, DT_YMD);
+		}
+	}
+# endif
+	c01 = dt_dtcmp(v[0], v[1]);
+	c02 = dt_dtcmp(v[0], v[2]);
+	ir = dt_dt_in_range_p(v[0], v[1], v[2]);
+	CHECK(c01 == vf_dtcmp(v[0], v[1]), "contract: order of two values");
+	CHECK((ir == 1) == (vf_in_range(v[0], v[1], v[2]) == 1), "contract: in range iff lo <= d <= hi");
+	CHECK(vf_contract_domain, "contract domain covers the inputs");
+	(void)c02;
+	WITNESS();
+}
+
 #else  /* !PART_CONTRACT */
 # define dt_dtadd	vf_dtadd
+# define dt_dtcmp	vf_dtcmp
+# define dt_dt_in_range_p	vf_in_range
 # define main	dseq_main
 # include "dseq.c"
 # undef main
 # undef dt_dtadd
+# undef dt_dtcmp
+# undef dt_dt_in_range_p
 
-static struct dt_dt_s outv[MAXOUT];
+/* what was emitted: day number / (y*12+m-1)*32+d / seconds of the day */
+static int outv[MAXOUT];
 static unsigned int nout;
+
+static int
+vf_key(struct dt_dt_s d)
+{
+	if (dt_sandwich_only_t_p(d)) {
+		return vf_secs(d.t);
+	} else if (d.d.typ == DT_DAISY) {
+		return (int)d.d.daisy;
+	}
+	return ((int)d.d.ymd.y * 12 + (int)d.d.ymd.m - 1) * 32 + (int)d.d.ymd.d;
+}
 
 /* main() from the naught test to the output loop; -1 refused, 1 ran into
  * the guard (more members than the bound, or endless), 0 otherwise */
@@ -204,7 +303,7 @@ vf_run(struct dseq_clo_s *clo, int from_last)
 		if (guard++ >= MAXOUT) {
 			return 1;
 		}
-		outv[nout++] = dt_fixup(tmp);
+		outv[nout++] = vf_key(dt_fixup(tmp));
 	}
 	return 0;
 }
@@ -247,6 +346,20 @@ h_seq_days(void)
 	ASSUME(vn >= -NMAX && vn <= NMAX);
 	ASSUME(vunit == DT_DURD || vunit == DT_DURWK || vunit == DT_DURH || vunit == DT_DURS);
 	ASSUME(vlast <= 1);
+	/* the runner may fix the unit and the anchoring per query, as constants
+	 * (an assumed-equal symbol would not fold) */
+#if defined UNIT
+	ASSUME(vunit == UNIT);
+# define unit	((unsigned int)UNIT)
+#else
+# define unit	((unsigned int)vunit)
+#endif
+#if defined FROMLAST
+	ASSUME(vlast == FROMLAST);
+# define fromlast	(FROMLAST)
+#else
+# define fromlast	((int)vlast)
+#endif
 	/* bits 1..7 = Monday..Sunday, never all seven */
 	ASSUME((vskip & 0x7f) != 0x7f);
 	memset(&clo, 0, sizeof(clo));
@@ -254,29 +367,29 @@ h_seq_days(void)
 	dt_make_d_only(&clo.fst, DT_DAISY);
 	clo.lst.d.daisy = vfst + vk;
 	dt_make_d_only(&clo.lst, DT_DAISY);
-	ite = mk_dur(vunit, vn);
+	ite = mk_dur(unit, vn);
 	clo.ite = &ite;
 	clo.nite = 1;
 	clo.ss = (vskip & 0x7f) << 1;
 	lastv = vfst + vk;
 
-	rc = vf_run(&clo, vlast);
+	rc = vf_run(&clo, fromlast);
 	CHECK(vf_contract_domain, "contract domain covers the run");
 	CHECK(rc <= 0, "terminates within the bound");
-	if (vunit == DT_DURH || vunit == DT_DURS || vn == 0) {
+	if (unit == DT_DURH || unit == DT_DURS || vn == 0) {
 		CHECK(rc < 0 || nout == 0, "an increment that cannot move a date is refused or gives nothing");
 		WITNESS();
 		return;
 	}
 	CHECK(rc == 0, "a non-zero day increment is not refused");
-	step = vunit == DT_DURWK ? 7 * vn : vn;
+	step = unit == DT_DURWK ? 7 * vn : vn;
 	dir = step > 0 ? 1 : -1;
-	if (!vlast) {
+	if (!fromlast) {
 		for (int j = 0; j <= KMAX; j++) {
 			int v = vfst + j * step;
 			int in = dir > 0 ? (v >= vfst && v <= lastv) : (v <= vfst && v >= lastv);
 			if (in && !((clo.ss >> ref_wday(v)) & 1)) {
-				ok &= expn < (int)nout && (int)outv[expn < MAXOUT ? expn : 0].d.daisy == v;
+				ok &= expn < (int)nout && outv[expn < MAXOUT ? expn : 0] == v;
 				expn++;
 			}
 		}
@@ -286,7 +399,7 @@ h_seq_days(void)
 			int v = lastv - j * step;
 			int in = dir > 0 ? (v >= vfst && v <= lastv) : (v <= vfst && v >= lastv);
 			if (in && !((clo.ss >> ref_wday(v)) & 1)) {
-				ok &= expn < (int)nout && (int)outv[expn < MAXOUT ? expn : 0].d.daisy == v;
+				ok &= expn < (int)nout && outv[expn < MAXOUT ? expn : 0] == v;
 				expn++;
 			}
 		}
@@ -295,6 +408,8 @@ h_seq_days(void)
 	CHECK(ok, "exactly the members of the progression, in order");
 	WITNESS();
 }
+#undef unit
+#undef fromlast
 
 /* month and year steps over ymd dates: the k-th element is FIRST plus k
  * increments taken in one step, end-of-month clamped */
@@ -345,8 +460,7 @@ h_seq_months(void)
 		ekey = (ey * 12 + em - 1) * 32 + ed;
 		in = step > 0 ? (ekey >= fkey && ekey <= lkey) : (ekey <= fkey && ekey >= lkey);
 		if (in) {
-			struct dt_dt_s o = outv[expn < MAXOUT ? expn : 0];
-			ok &= expn < (int)nout && (int)o.d.ymd.y == ey && (int)o.d.ymd.m == em && (int)o.d.ymd.d == ed;
+			ok &= expn < (int)nout && outv[expn < MAXOUT ? expn : 0] == ekey;
 			expn++;
 		}
 	}
@@ -384,8 +498,13 @@ h_seq_times(void)
 	/* equal bounds are outside: the tool goes once around the clock, the
 	 * property's text can be read either way */
 	ASSUME(s0 != sl);
+	/* steps of a day and more are outside */
+	ASSUME(vunit != DT_DURH || (vn > -24 && vn < 24));
 	step = vunit == DT_DURH ? 3600 * vn : vunit == DT_DURM ? 60 * vn : vunit == DT_DURS ? vn : 0;
-	dist = step > 0 ? (sl - s0 + 86400) % 86400 : (s0 - sl + 86400) % 86400;
+	dist = step > 0 ? sl - s0 : s0 - sl;
+	if (dist < 0) {
+		dist += 86400;
+	}
 	/* no more than KMAX + 1 members */
 	ASSUME(step == 0 || dist <= KMAX * (step > 0 ? step : -step));
 	memset(&clo, 0, sizeof(clo));
@@ -408,8 +527,14 @@ h_seq_times(void)
 	for (int k = 0; k <= KMAX; k++) {
 		int off = k * (step > 0 ? step : -step);
 		if (off <= dist) {
-			int v = ((s0 + k * step) % 86400 + 86400) % 86400;
-			ok &= expn < (int)nout && vf_secs(outv[expn < MAXOUT ? expn : 0].t) == v;
+			/* off <= dist < 24 h: at most one wrap */
+			int v = s0 + k * step;
+			if (v < 0) {
+				v += 86400;
+			} else if (v >= 86400) {
+				v -= 86400;
+			}
+			ok &= expn < (int)nout && outv[expn < MAXOUT ? expn : 0] == v;
 			expn++;
 		}
 	}
